@@ -153,6 +153,43 @@ class BuildError(Exception):
 
 
 # --------------------------------------------------------------------------- implementation worker
+IMPL_STMTS = {}      # staged file (relative) -> statement start lines as coverage.py normalises them
+IMPL_LINES = {}      # staged file (relative) -> set of executed lines, accumulated over every worker of this check
+
+
+def impl_coverage(stage_dir, anchors):
+    """Per anchored function `file:Qualified.name`: executable statements, how many the correspondence cases ran, and the
+    source lines never run.  Measured on the staged copy of /repo's working tree; reported in the evidence only."""
+    import ast
+    out = []
+    for a in anchors:
+        f, _, qual = a.partition(":")
+        path = os.path.join(stage_dir, f)
+        try:
+            tree = ast.parse(open(path).read())
+        except Exception as e:  # noqa
+            out.append({"function": a, "error": str(e)[:100]})
+            continue
+        node = tree
+        for part in [x for x in qual.split(".") if x]:
+            cands = [n for n in ast.iter_child_nodes(node)
+                     if isinstance(n, (ast.FunctionDef, ast.ClassDef, ast.AsyncFunctionDef)) and n.name == part]
+            node = cands[-1] if cands else None      # the last definition wins (typing.overload stubs come first)
+            if node is None:
+                break
+        if node is None:
+            out.append({"function": a, "error": "not found in the current source"})
+            continue
+        body = list(node.body) if hasattr(node, "body") else []
+        lo = body[0].lineno if body else node.lineno
+        hi = getattr(node, "end_lineno", lo)
+        stmts = set(x for x in IMPL_STMTS.get(f, set()) if lo <= x <= hi)
+        ran = IMPL_LINES.get(f, set())
+        missed = sorted(stmts - ran)
+        out.append({"function": a, "statements": len(stmts), "executed": len(stmts & ran), "never_executed_lines": missed[:60]})
+    return out
+
+
 def run_worker(stage, pid, cases, timeout=3600, jobs=1, env_extra=None):
     """Run props.<pid>.run_impl on every case inside the staged interpreter. Returns list of outputs
     (dict; {'exc': name, 'msg': ...} when the implementation raised)."""
@@ -167,8 +204,10 @@ def run_worker(stage, pid, cases, timeout=3600, jobs=1, env_extra=None):
             fin = os.path.join(tmp, "in%d.json" % k)
             fout = os.path.join(tmp, "out%d.json" % k)
             json.dump(ch, open(fin, "w"))
+            envx = dict(env_extra or {})
+            envx.setdefault("DSV_COVERAGE", os.environ.get("DSV_COVERAGE", "1"))
             p = subprocess.Popen([PY, os.path.join(VERIF, "harness", "worker.py"), pid, fin, fout],
-                                 env=stage.env(env_extra), stdout=subprocess.PIPE, stderr=subprocess.STDOUT, text=True)
+                                 env=stage.env(envx), stdout=subprocess.PIPE, stderr=subprocess.STDOUT, text=True)
             procs.append((p, fout, len(ch)))
         results = []
         for p, fout, n in procs:
@@ -177,6 +216,13 @@ def run_worker(stage, pid, cases, timeout=3600, jobs=1, env_extra=None):
             except subprocess.TimeoutExpired:
                 p.kill()
                 so = "worker timeout"
+            if os.path.exists(fout + ".cov"):
+                try:
+                    for f, d in json.load(open(fout + ".cov")).items():
+                        IMPL_LINES.setdefault(f, set()).update(d["executed"])
+                        IMPL_STMTS.setdefault(f, set()).update(d["stmts"])
+                except Exception:  # noqa
+                    pass
             if p.returncode == 0 and os.path.exists(fout):
                 results.append(json.load(open(fout)))
             else:
@@ -586,6 +632,8 @@ def main_check(pid, tier, seed):
             "known_findings_exercised": sorted(exercised),
             "trusted_base": TRUSTED_BASE + getattr(prop, "TRUSTED", []),
         })
+        if getattr(prop, "ANCHORS", None):
+            cov["implementation_line_coverage"] = impl_coverage(stage.dir, prop.ANCHORS)
         if hasattr(prop, "extra_evidence"):
             cov.update(prop.extra_evidence())
         ev["assumptions"] = getattr(prop, "ASSUMPTIONS", [])
